@@ -58,6 +58,25 @@ SetLim(t, path, v) ==
          [] t.k \in {"take", "limit", "ref", "box"} -> [t EXCEPT !.t = SetLim(@, Tail(path), v)]
          [] OTHER -> t
 
+\* the node at `path` is advanced directly (through get_mut / first_mut / last_mut), behind the back
+\* of the adapters above it: those keep their own bookkeeping (a Take keeps its limit)
+RECURSIVE AdvAt(_, _, _), SubAt(_, _), NodePaths(_)
+AdvAt(t, path, n) ==
+  IF path = <<>> THEN Consume(t, n)
+  ELSE CASE t.k = "chain" -> IF Head(path) = 0 THEN [t EXCEPT !.a = AdvAt(@, Tail(path), n)]
+                             ELSE [t EXCEPT !.b = AdvAt(@, Tail(path), n)]
+         [] t.k \in {"take", "limit", "ref", "box"} -> [t EXCEPT !.t = AdvAt(@, Tail(path), n)]
+         [] OTHER -> t
+SubAt(t, path) ==
+  IF path = <<>> THEN t
+  ELSE CASE t.k = "chain" -> IF Head(path) = 0 THEN SubAt(t.a, Tail(path)) ELSE SubAt(t.b, Tail(path))
+         [] t.k \in {"take", "limit", "ref", "box"} -> SubAt(t.t, Tail(path))
+         [] OTHER -> t
+NodePaths(t) ==
+  CASE t.k = "leaf" -> {<<>>}
+    [] t.k = "chain" -> {<<>>} \cup {<<0>> \o p : p \in NodePaths(t.a)} \cup {<<1>> \o p : p \in NodePaths(t.b)}
+    [] OTHER -> {<<>>} \cup {<<0>> \o p : p \in NodePaths(t.t)}
+
 (***************************************************************************)
 (* Typed values: 16 big-endian bytes, sign- or zero-extended               *)
 (***************************************************************************)
@@ -127,6 +146,10 @@ BufStep(T, e) ==
                                     \cup (IF T2 # T THEN {<<"C10", "try_err_untouched">>} ELSE {})]
             ELSE [V |-> c(~ok, "get_panics")]
     [] e.op = "set_limit" -> [V |-> IF T2 = SetLim(T, e.path, n) THEN {} ELSE {<<"C12", "set_limit">>}]
+    [] e.op = "advance_at" ->
+         IF n <= Len(Flat(SubAt(T, e.path)))
+         THEN [V |-> IF ok /\ T2 = AdvAt(T, e.path, n) THEN {} ELSE {<<"C12", "inner_advance">>, <<"C09", "advance_drop">>}]
+         ELSE [V |-> {}]
     [] e.op = "read" ->
          LET k == Min2(n, len) IN
          [V |-> (IF ok /\ e.res.flag /\ e.res.n = k /\ e.res.v = Take(F, k) THEN {} ELSE {<<"C12", "io_min">>})
